@@ -94,7 +94,7 @@ func (fs *Store) AddMessage(m storage.Message) (id string, err error) {
 	}
 
 	// Create a new message.
-	fm, err := mb.newMessage()
+	fm, evicted, err := mb.newMessage()
 	if err != nil {
 		return "", err
 	}
@@ -146,6 +146,15 @@ func (fs *Store) AddMessage(m storage.Message) (id string, err error) {
 		// Try to remove the file.
 		_ = os.Remove(fm.rawPath())
 		return "", err
+	}
+
+	// The new index no longer lists the messages evicted by the cap: dispose of them.
+	for _, old := range evicted {
+		fs.extHost.Events.AfterMessageDeleted.Emit(message.MakeMetadata(old))
+		if err := os.Remove(old.rawPath()); err != nil {
+			log.Error().Str("module", "storage").Str("mailbox", mb.name).Str("id", old.ID()).
+				Err(err).Msg("Unable to delete message")
+		}
 	}
 
 	return fm.Fid, nil
